@@ -236,6 +236,30 @@ OneResult runOne(RK kind, const Delivery& d, const std::string& wire, Transcript
       serializeMsgPack(*doc, mp);
       if (measureMsgPack(*doc) != mp.size())
         violate("C03:malformed-document", "measureMsgPack differs from serializeMsgPack");
+      // ... and pretty-printed, whatever its depth (a nesting limit of 255 lets 255 levels in)
+      std::string pretty;
+      size_t np = serializeJsonPretty(*doc, pretty);
+      if (np != pretty.size() || measureJsonPretty(*doc) != np)
+        violate("C03:malformed-document", "serializeJsonPretty count / measureJsonPretty differ from the bytes produced");
+      std::string squeezed;
+      bool inStr = false;
+      for (size_t q = 0; q < pretty.size(); q++) {
+        char c = pretty[q];
+        if (inStr) {
+          squeezed += c;
+          if (c == '\\' && q + 1 < pretty.size())
+            squeezed += pretty[++q];
+          else if (c == '"')
+            inStr = false;
+        } else if (c == '"') {
+          inStr = true;
+          squeezed += c;
+        } else if (c != ' ' && c != '\r' && c != '\n') {
+          squeezed += c;
+        }
+      }
+      if (!bin && squeezed != js)
+        violate("C03:malformed-document", "the pretty text differs from the compact one in more than white space");
     }
     // memory bound (C06): one maximum-size string + linear in the bytes consumed
     {
@@ -321,7 +345,8 @@ Delivery deliveryFrom(const Op& op) {
     d.hasFilter = true;
     d.filter = parseText(op.str("filter"));
   }
-  d.filterFirst = op.num("ffirst", 1) != 0;
+  // the two options may be given in either order; where the plan does not say, the order is a function of the bytes
+  d.filterFirst = op.has("ffirst") ? op.num("ffirst", 1) != 0 : (hashStr(op.str("b")) & 1) != 0;
   if (op.has("chunks")) {
     std::stringstream ss(op.str("chunks"));
     std::string tok;
